@@ -51,6 +51,8 @@ pub struct Stats {
     /// operations were still in flight (16-bit counter wrapped)
     pub wraps_with_inflight: u32,
     pub wraps: u32,
+    /// per successful connect: (transport, unresolved requests, owed/optional acks) at that moment
+    pub inflight_at_conn: Vec<(usize, u32, u32)>,
 }
 
 #[derive(Clone, Copy, Debug, PartialEq, Eq)]
@@ -293,6 +295,11 @@ impl<'a> Model<'a> {
 
     fn on_conn_end(&mut self, tr: usize, res: ConnRes) {
         let had_inflight = self.unresolved().count() > 0;
+        if res.is_ok() {
+            let n = self.unresolved().count() as u32;
+            let o = (self.owed.len() + self.optional.len()) as u32;
+            self.stats.inflight_at_conn.push((tr, n, o));
+        }
         match res {
             ConnRes::Connected => {
                 self.stats.fresh += 1;
